@@ -276,3 +276,73 @@ def same_obs(a, b):
 
 def summarise(rec):
     return {k: (rec[k] if k in ("energies", "triggered", "rays", "comps") else ("..." if not isinstance(rec.get(k), str) else rec[k])) for k in ("energies", "triggered", "rays", "comps", "waves", "noise")}
+
+
+def _eq(a, b):
+    a, b = _norm(a), _norm(b)
+    if isinstance(a, float) and isinstance(b, float) and a != a and b != b:
+        return True
+    if isinstance(a, list) and isinstance(b, list):
+        return len(a) == len(b) and all(_eq(x, y) for x, y in zip(a, b))
+    return a == b
+
+
+def accessor_problem(e):
+    """The narrowed forms of an event's read accessors (one attribute, one antenna, one ray) must return the same data as the
+    full forms.  Returns None or (what differs, detail)."""
+    def quiet(fn):
+        try:
+            return fn()
+        except ValueError as err:
+            if "not saved" in str(err) or "was not saved" in str(err):
+                return None
+            raise
+    pi = quiet(e.get_particle_info)
+    if pi is not None and len(pi) > 0:
+        keys = list(pi[0].keys())
+        for key in keys:
+            col = e.get_particle_info(key)
+            if not _eq(list(col), [p[key] for p in pi]):
+                return "get_particle_info(%r)" % key, {"narrow": _norm(col), "full": [_norm(p[key]) for p in pi]}
+        for name, pref in (("vertex", "vertex"), ("position", "vertex"), ("direction", "direction")):
+            got = e.get_particle_info(name)
+            want = [[p[pref + "_x"], p[pref + "_y"], p[pref + "_z"]] for p in pi]
+            if not _eq(got, want):
+                return "get_particle_info(%r)" % name, {"narrow": _norm(got), "full": _norm(want)}
+        ii = e.get_particle_info("interaction_info")
+        want_keys = sorted(k for k in keys if "interaction" in k)
+        if sorted(ii) != want_keys:
+            return "get_particle_info('interaction_info') keys", {"narrow": sorted(ii), "full": want_keys}
+        for k, col in ii.items():
+            if not _eq(list(col), [p[k] for p in pi]):
+                return "get_particle_info('interaction_info')[%r]" % k, {"narrow": _norm(col), "full": [_norm(p[k]) for p in pi]}
+    ri = quiet(e.get_rays_info)
+    if ri is not None and len(ri) > 0 and len(ri[0]) > 0:
+        keys = list(ri[0][0].keys())
+        for key in keys:
+            col = e.get_rays_info(key)
+            want = [[cell[key] for cell in row] for row in ri]
+            if not _eq(col, want):
+                return "get_rays_info(%r)" % key, {"narrow": _norm(col), "full": _norm(want)}
+        for name, pref in (("polarization", "polarization"), ("emitted_direction", "emitted"), ("received_direction", "received")):
+            if pref + "_x" in keys:
+                got = e.get_rays_info(name)
+                want = [[[cell[pref + "_x"], cell[pref + "_y"], cell[pref + "_z"]] for cell in row] for row in ri]
+                if not _eq(got, want):
+                    return "get_rays_info(%r)" % name, {"narrow": _norm(got), "full": _norm(want)}
+    wf = quiet(e.get_waveforms)
+    if wf is not None and len(wf) > 0:
+        R, A = wf.shape[0], wf.shape[1]
+        for a_ in range(A):
+            if not _eq(e.get_waveforms(antenna_id=a_), wf[:, a_]):
+                return "get_waveforms(antenna_id=%d)" % a_, {}
+        for r in range(R):
+            for sp in [r, float(r)] + ([["direct", "Direct"], ["reflected", "REFLECTED"]][r] if r < 2 else []):
+                if not _eq(e.get_waveforms(waveform_type=sp), wf[r]):
+                    return "get_waveforms(waveform_type=%r)" % (sp,), {}
+                if not _eq(e.get_waveforms(A - 1, sp), wf[r, A - 1]):
+                    return "get_waveforms(%d, %r)" % (A - 1, sp), {}
+        beyond = e.get_waveforms(waveform_type=R)
+        if len(beyond) != 0:
+            return "get_waveforms(waveform_type beyond the stored rays)", {"returned": len(beyond)}
+    return None
